@@ -105,6 +105,8 @@ RECURSIVE KeyLess(_, _, _)
 KeyLess(a, b, j) == IF j > Len(a) \/ j > Len(b) THEN FALSE
                     ELSE IF a[j] = b[j] THEN KeyLess(a, b, j + 1) ELSE TupLess(a[j], b[j], 1)
 
+\* equal keys only arise for the two forms of the one-segment route "/?" (both match "/"): short form first
+Before(kw, w, kv, v) == KeyLess(kw, kv, 1) \/ (kw = kv /\ w.short /\ ~v.short)
 \* witnesses: [reg, short, c]
 WitnessesOf(H, i, p, orc) ==
   LET r == H[i].r IN
@@ -120,7 +122,7 @@ P_Winner(H, m, p, rh, orc, horc) ==
   LET W == Witnesses(H, m, p, rh, orc, horc)
       K(w) == Key(H, m, w.reg, FormSegs(H, w), w.c)
   IN IF W = {} THEN NoWitness
-     ELSE CHOOSE w \in W : \A v \in W : v = w \/ KeyLess(K(w), K(v), 1)
+     ELSE CHOOSE w \in W : \A v \in W : v = w \/ Before(K(w), w, K(v), v)
 
 (* ======================= layer P : parameters ======================== *)
 \* dec[i] = path segment i percent-decoded (raw if undecodable), decok[i] = decodable
